@@ -239,7 +239,9 @@ class Scrollable(WidgetDecoration[WrappedWidget]):
             canv.pad_trim_top_bottom(0, fill_height)
 
         if canv_cols <= maxcol and canv_rows <= maxrow:
-            # Canvas is small enough to fit without trimming
+            # Canvas is small enough to fit without trimming: nothing is scrolled out of view
+            self._trim_top = 0
+            self._scroll_action = None
             return canv
 
         self._adjust_trim_top(canv, size)
